@@ -36,7 +36,7 @@ func (c19) Assumptions() []string {
 }
 func (c19) Required(tier string) []string {
 	return []string{"measured", "measured-after-failed-call", "path-float-exact", "path-float-eisel-lemire", "path-float-long-mantissa", "path-float-halfway", "path-float-subnormal", "path-int-18", "path-int-19", "path-int-20",
-		"path-string-escapes", "path-string-surrogate-pair", "path-depth-equals-warmed", "handler-consume", "handler-decline", "dst-slack-0"}
+		"path-string-escapes", "path-string-surrogate-pair", "path-depth-equals-warmed", "path-decode-null", "handler-consume", "handler-decline", "dst-slack-0"}
 }
 
 var c19Floats = map[string][]string{
@@ -70,6 +70,10 @@ func pickMapKey(r *Rand, m map[string][]string) string {
 func c19Input(r *Rand, fn string) Doc {
 	ws := []string{"", "", " ", "\n\t"}[r.Intn(4)]
 	tail := []string{"", "", ",", " ", "]"}[r.Intn(5)]
+	if strings.HasPrefix(fn, "Decode") && r.Chance(1, 4) {
+		// a Decode function that meets null succeeds too (target untouched)
+		return docOf([]byte(ws+"null"+tail), "decode-null")
+	}
 	switch {
 	case fn == "ReadFloat64" || fn == "DecodeFloat64":
 		if r.Chance(1, 5) {
